@@ -232,19 +232,21 @@ def jdNew (max : Nat) : JVal → Except Err String
 
 def isSet (v : JVal) : Bool := !v.isNull
 
+/-- the tail of `Gateway.__init__`: `if lab.mac is not None: self.lab.mac = lab.mac` -/
+def gwFinish (l : Fields) : Except Err Fields → Except Err (Option Fields)
+  | .error e => .error e
+  | .ok g => if isSet (l "mac") then .ok (some (setF g "mac" (l "mac"))) else .ok (some g)
+
 /-- `Gateway(lab)`: `.lab` of the result -/
 def gatewayNew (labels : ClassSpec) (valid : String → JVal → Bool) : Option Fields → Except Err (Option Fields)
   | none => .ok none
   | some l =>
-    let base :=
-      if isSet (l "ipv4_subnet") && isSet (l "ipv4") then
+    gwFinish l
+      (if isSet (l "ipv4_subnet") && isSet (l "ipv4") then
         construct labels valid [("ipv4_subnet", l "ipv4_subnet"), ("ipv4", l "ipv4")]
       else if isSet (l "ipv6_subnet") && isSet (l "ipv6") then
         construct labels valid [("ipv6_subnet", l "ipv6_subnet"), ("ipv6", l "ipv6")]
-      else .error "gateway"
-    match base with
-    | .error e => .error e
-    | .ok g => if isSet (l "mac") then .ok (some (setF g "mac" (l "mac"))) else .ok (some g)
+      else .error "gateway")
 
 /-- `Gateway.to_json` (`none`: returns `None`/`''`) -/
 def gatewayEncode (labels : ClassSpec) : Option Fields → Option JVal
